@@ -39,6 +39,12 @@ Proof.
   intros Hs Hc. unfold upd_cell. apply Forall2_app; [now apply Forall2_firstn|]. constructor; [exact Hc|now apply Forall2_skipn].
 Qed.
 
+Lemma vr_union_guard t v m e : vr v m -> union_guard H src t v e = union_guard H src t m e.
+Proof.
+  intros Hv. unfold union_guard. destruct t; try reflexivity.
+  now rewrite (sim_eq_is_eq _ _ (vr_union_selector H src (TUnion none0 opts) v m Hv)).
+Qed.
+
 Lemma set_backing_sim : forall fuel sv sm u bv bm, srel sv sm -> vr bv bm -> rrel (set_backing fuel sv u bv) (set_backing fuel sm u bm).
 Proof.
   induction fuel as [|f IH]; intros sv sm u bv bm Hs Hb; cbn [ModelStore.set_backing];
@@ -57,7 +63,8 @@ Proof.
     + rewrite Hvs. split; [reflexivity|exact Hs1].
   - (* union value hook *)
     pose proof (srel_nth _ _ p Hs1) as Hp. destruct (nth_error (upd_cell sm u _) p) as [pm|]; [|rewrite Hp; split; [reflexivity|exact Hs1]].
-    destruct Hp as (pv & -> & Htp & _ & Hkp).
+    destruct Hp as (pv & -> & Htp & _ & Hkp). rewrite Htp. rewrite (vr_union_guard (cty pm) (cback pv) (cback pm) (cty cm) Hkp).
+    destruct (union_guard H src (cty pm) (cback pm) (cty cm)) as [[]|eg]; cbn [bind]; [|split; [reflexivity|exact Hs1]].
     pose proof (vr_setter_g H src false (cback pv) (cback pm) 2 bv bm Hkp Hb ltac:(discriminate)) as Hvs. unfold sim in Hvs.
     destruct (setter_g H src false (cback pm) 2 bm) as [nb|e].
     + destruct Hvs as (nv & -> & Hn). now apply IH.
